@@ -229,6 +229,10 @@ fn js_corpus() -> Vec<Project> {
     for k in 0..400u64 {
         corpus.push(crate::gen::synthetic_project(0xC16_0000 + k));
     }
+    // stress modules (id prefix "stress_"): used by the hash256 termination leg only
+    for (n, style) in [(5, 0), (7, 1), (9, 0), (11, 2), (14, 0)] {
+        corpus.push(crate::gen::dense_recursive_project(n, style));
+    }
     corpus
 }
 
